@@ -19,9 +19,10 @@ from __future__ import annotations
 import copy, json, random
 from ..core import Check, MachineryFailure
 from .. import tlc, graph, tracecheck
-from ..impl_config import ConfigImpl
+from ..impl_config import ConfigImpl, unshaped_reconfigurable
 
 PID = "C14"
+UNSHAPED_OK = unshaped_reconfigurable()
 INVS = ["TypeOK", "ReportsBackInv", "SizedAsFreshInv", "PathIndependentInv", "AssignsOnlyInv", "ProbeSameInv"]
 ALLK = ("neuron", "synapse", "connection", "layer", "reducer")
 CLASSES = {"neuron": ["LIF", "ALIF"], "synapse": [None], "connection": ["LinearDense", "LinearDirect"],
@@ -78,8 +79,11 @@ def init_headers(c, rng, tick):
                 cfg = dict(dt=c["Dt0"], delay=c["Delay0"] if syn != "none" else 0,
                            batchsz=c["Batch0"] if k != "reducer" else 0, inplace=False,
                            dur=c["Dur0"] if k == "reducer" else 0, incl=incl, syn=syn, dtype="f32")
-                for cls in CLASSES[k]:
-                    out.append(dict(kind=k, cls=cls, tick=tick, cfg=cfg, seed=rng.randrange(1, 10 ** 6)))
+                for i, cls in enumerate(CLASSES[k]):
+                    h = dict(kind=k, cls=cls, tick=tick, cfg=cfg, seed=rng.randrange(1, 10 ** 6))
+                    if k == "reducer":
+                        h["warm"] = (not UNSHAPED_OK) or (i + int(incl)) % 2 == 0
+                    out.append(h)
     return out
 
 
@@ -163,6 +167,8 @@ def random_traces(rng, count, steps):
                    dur=rng.randint(0, 8) if k == "reducer" else 0, incl=(rng.random() < 0.5) if k == "reducer" else False,
                    syn=syn, dtype="f32")
         hdr = dict(kind=k, cls=cls, tick=tick, cfg=cfg, seed=rng.randrange(1, 10 ** 6))
+        if k == "reducer":
+            hdr["warm"] = (not UNSHAPED_OK) or rng.random() < 0.5
         impl = ConfigImpl(hdr)
         evs = []
         for _ in range(steps):
@@ -255,8 +261,13 @@ def run(tier: str, seed: int) -> int:
                          "one execution per sampled edge (assignment or probe after a sequence) on real components of "
                          "several classes; traces: random longer sequences. A case is distinct and non-trivial when it "
                          "is a distinct (component class, sequence, operation) executed on a real component.")
-    chk.assumptions.append("reducers observe once before being re-configured: RecordTensor's temporal setters refuse "
-                           "uninitialised storage when the size changes (finding of C13, worked around here)")
+    if UNSHAPED_OK:
+        chk.note("reducers are re-configured both after observing once and before any observation")
+    else:
+        chk.assumptions.append("reducers observe once before being re-configured: on this tree RecordTensor's temporal "
+                               "setters refuse uninitialised storage when the size changes (finding D5 of C13)")
+        chk.note("RecordTensor temporal setters refuse uninitialised storage on this tree (C13 D5): reducers are "
+                 "re-configured only after one observation")
     # ---- T
     if thorough:
         run_mc(chk, "all-len4", consts(ALLK, 4, delays=(0, 2, 3, 4), batches=(1, 2, 3)))
